@@ -582,14 +582,24 @@ def eval_triangles(ctx, exe, mexe, cases, stats):
     ref = run_impl(ctx, exe, seen_lines)
     for k, c in enumerate(cases):
         raw_a, raw_l, tri_d, tri_r = impl[4 * k: 4 * k + 4]
-        if any(x.crashed or x.X is not None for x in (raw_a, raw_l, tri_d, tri_r)):
-            bad = next(x for x in (raw_a, raw_l, tri_d, tri_r) if x.crashed or x.X is not None)
-            ctx.violation(slim(c), "solver front-end aborts / throws on a full-rank matrix: %s" % (bad.why or bad.X))
+        if any(x.crashed for x in (raw_a, raw_l, tri_d, tri_r)):
+            bad = next(x for x in (raw_a, raw_l, tri_d, tri_r) if x.crashed)
+            ctx.violation(slim(c), "solver front-end aborts on a small integer matrix: %s" % bad.why)
             continue
+        if any(x.X is not None for x in (raw_a, raw_l, tri_d)):
+            # the probe matrices are outside the property's domain (triangles differ): a throw is a
+            # correspondence failure, not a violation
+            ctx.mismatch(slim(c), "triangle probe: dense front-end / Eigen throws on a small integer matrix")
+            continue
+        if tri_r.X is not None:
+            stats["triangle_probes_skipped"] = stats.get("triangle_probes_skipped", 0) + 1
+            tri_r = None      # the matrix the randomized front-end sees may be singular (known finding F36)
         # oracle contract: Eigen reads the LOWER triangle only (bitwise identical answers)
         if raw_a.R.get("vals") != raw_l.R.get("vals") or raw_a.R.get("vecs") != raw_l.R.get("vecs"):
             ctx.mismatch(slim(c), "oracle contract: Eigen::SelfAdjointEigenSolver does not read the lower triangle only")
         for name, tri, rr in (("dense", tri_d, ref[2 * k]), ("randomized", tri_r, ref[2 * k + 1])):
+            if tri is None:
+                continue
             a, b = tri.mat("vals"), rr.mat("vals")
             if a is None or b is None:
                 ctx.mismatch(slim(c), "triangle probe: no eigenvalues from the %s front-end" % name)
